@@ -146,7 +146,7 @@ func sessKey(a, b int) string {
 
 // epoch returns the relay's current epoch for the unordered pair (0 if untracked).
 func (t *strace) epoch(a, b int) uint64 {
-	_, _, m := t.srv.VerifState()
+	_, _, m := hookState(t.srv)
 	return m[sessKey(a, b)]
 }
 
@@ -196,6 +196,10 @@ func (t *strace) lastRecvSeq(p, q int) (uint64, bool) {
 
 // apply executes one operation; returns false if it was not applicable.
 func (t *strace) apply(o sop) bool {
+	if relayStuck.Load() {
+		// the relay does not answer any more: nothing further can be applied
+		return false
+	}
 	k := pair{o.P, o.Q}
 	switch o.Op {
 	case "attach":
